@@ -516,6 +516,7 @@ func infoEventOn(d *fileDesc, shared *mcap.Reader) (e wl.Ev) {
 	e["nAttIdx"], e["nMdIdx"] = len(info.AttachmentIndexes), len(info.MetadataIndexes)
 	if info.Statistics != nil {
 		e["hasStats"], e["msgs"] = true, info.Statistics.MessageCount
+		e["stats"] = run.StatsEv(info.Statistics) // the values themselves: judged against the logical content where the trace carries it
 	}
 	// every listed item is compared, field by field, with the summary record of the decoded file it must stand for
 	ex := infoExact(d, info)
@@ -970,6 +971,13 @@ func irun(args []string) error {
 			}
 			if i%3 == 0 { // the indexed-reading precondition holds
 				w.Cfg.Chunked, w.Cfg.SkipChunkIdx, w.Cfg.SkipRepChannels, w.Cfg.SkipRepSchemas = true, false, false, false
+			}
+			if i%6 == 3 { // ... and channels are re-announced after messages that use them, in chunks that hold several channels
+				w.Cfg.Chunked, w.Cfg.SkipChunkIdx, w.Cfg.SkipRepChannels, w.Cfg.SkipRepSchemas, w.Cfg.SkipMsgIdx = true, false, false, false, false
+				if w.Cfg.ChunkSize < 400 {
+					w.Cfg.ChunkSize = 400
+				}
+				w.Calls = g.Reannounce(w.Calls)
 			}
 			uniqueSeqs(&w)
 			var buf bytes.Buffer
